@@ -163,7 +163,7 @@ PROPS["C11"] = {
                    "line starts (subset / permutation) is honoured, f[i] (positive and negative int) is the i-th line of the index without its "
                    "terminator, iteration yields the same sequence as indexing even when the shared cursor is moved arbitrarily at every yield "
                    "(interleaved random accesses / second iteration), and both variants have the same postconditions (hence agree). "
-                   "Bounded only: slice and iterable selectors (list comprehension over a stateful call), the index-file constructor, the "
+                   "f[sequence of indices] returns the selected lines in the order of the indices (the list comprehension over the stateful _get_item is executed as the loop it abbreviates, under its own comprehension contract; second typing of the selector parameter). Bounded only: slice selectors, the index-file constructor, the "
                    "mutable and record subclasses while unmodified, long lines / multi-byte UTF-8 at byte level (the env model is at line level).",
     "level_text": "Proof over a line-level file model for the two read-only classes; bounded enumeration of small contents x classes x index "
                   "sources x interleavings for the rest.",
